@@ -67,6 +67,8 @@ def oracle(sc):
     res = getattr(sc, 'post_result', None) or {}
     for k, v in res.items():
         out.append(E.failure('not-served:' + k, sc, detail=v))
+    if getattr(sc.rec, 'broken_frames', 0):
+        out.append(E.failure('half-parsed-frame-dispatched-as-valid', sc, count=sc.rec.broken_frames))
     # containment: what is sent while handling a frame is on that frame's stream
     steps = EP.steps_of_log(sc.rec.log)
     for i, (lab, utf8, effs, tk, ck) in enumerate(steps):
@@ -91,6 +93,8 @@ def correspond(ctx, corr, model_ok):
         corr.oracle_failures.extend(oracle(sc))
         corr.count('raw-byte injections', sc.raw_injected)
         corr.count('fragmented', sc.fragmented)
+    corr.oracle_failures.extend(failing_responder_oracle())
+    corr.count('failing library publishers / futures (factory, first step, later step)', 14)
     if model_ok:
         E.trace_corr(corr, runs, KEEP, KEYS, 'C12 hostile traces vs model/Endpoint.v')
     corr.rule = ('hostile histories (well-formed but illegal frames, raw bytes, raising handlers) of 4..16 steps on a real '
@@ -108,10 +112,113 @@ def search(ctx, budget):
         found.extend(crashed)
         for sc in runs:
             found.extend(oracle(sc))
+        found.extend(failing_responder_oracle())
     return found
 
 
 def replay(obj):
     case = obj.get('case') or obj
+    if 'responder_case' in case:
+        return bool(failing_responder_oracle())
     runs, crashed = E.run_all([case['scenario']], post=probe)
     return bool(crashed) or any(oracle(sc) for sc in runs)
+
+
+# ---------------------------------------------------------------------------------------------
+# failing application code behind the library's own publishers / futures: every point at which it can raise
+
+def run_failing_responder(kind, where, lenreq):
+    """server handler answers request-stream with StreamFromGenerator / StreamFromAsyncGenerator whose factory raises
+    (where='factory'), whose generator raises at its first step ('first') or after two elements ('later'); or answers
+    request-response with a future that fails.  A healthy request on another stream follows."""
+    import asyncio
+    from harness import sim, frames as FR
+    from rsocket.rsocket_server import RSocketServer
+    from rsocket.request_handler import BaseRequestHandler
+    from rsocket.payload import Payload
+    from rsocket.streams.stream_from_generator import StreamFromGenerator
+    from rsocket.streams.stream_from_async_generator import StreamFromAsyncGenerator
+    loop = sim.new_loop()
+    T = sim.make_transport_class()
+    t = T(lenreq=lenreq)
+
+    def gen_factory():
+        if where == 'factory':
+            raise RuntimeError('factory failed')
+
+        def g():
+            if where == 'first':
+                raise RuntimeError('first step failed')
+            yield Payload(b'e0'), False
+            yield Payload(b'e1'), False
+            raise RuntimeError('later step failed')
+        return g()
+
+    def agen_factory():
+        if where == 'factory':
+            raise RuntimeError('factory failed')
+
+        async def g():
+            if where == 'first':
+                raise RuntimeError('first step failed')
+            yield Payload(b'e0'), False
+            yield Payload(b'e1'), False
+            raise RuntimeError('later step failed')
+        return g()
+
+    class H(BaseRequestHandler):
+        async def request_stream(self, payload):
+            if bytes(payload.data) == b'ok':
+                def good():
+                    yield Payload(b'fine'), True
+                return StreamFromGenerator(good)
+            return StreamFromGenerator(gen_factory) if kind == 'gen' else StreamFromAsyncGenerator(agen_factory)
+
+        async def request_response(self, payload):
+            f = loop.create_future()
+            if bytes(payload.data) == b'ok':
+                f.set_result(Payload(b'fine'))
+            else:
+                f.set_exception(RuntimeError('future failed'))
+            return f
+    box = {}
+    try:
+        loop.run(lambda: box.setdefault('s', RSocketServer(t, handler_factory=H)))
+        loop.settle()
+        req = 'RequestResponse' if kind == 'future' else 'RequestStream'
+
+        def fr(sid, d):
+            f = {'t': req, 'sid': sid, 'ign': False, 'follows': False, 'md': b'', 'd': d}
+            if req == 'RequestStream':
+                f['n'] = 10
+            return f
+        t.inject_frame(FR.build(fr(1, b'bad')).serialize())
+        loop.settle()
+        t.inject_frame(FR.build(fr(3, b'ok')).serialize())
+        loop.settle()
+        for _ in range(10):
+            loop.tick()
+        wire = [sim.parse_sent(b) for b in t.sent]
+        s = box['s']
+        return {'errors_on_1': [w for w in wire if w.get('sid') == 1 and w['t'] == 'Error'],
+                'other_frames_on_1': [w['t'] for w in wire if w.get('sid') == 1 and w['t'] != 'Error'],
+                'served_3': any(w.get('sid') == 3 and w['t'] == 'Payload' and w.get('d') == b'fine' for w in wire),
+                'registered': sorted(s._stream_control._streams), 'escaped': list(loop.exceptions)[:2],
+                'receiver_alive': s._receiver_task is not None and not s._receiver_task.done()}
+    finally:
+        loop.finish()
+
+
+def failing_responder_oracle():
+    out = []
+    for kind, wheres in (('gen', ('factory', 'first', 'later')), ('agen', ('factory', 'first', 'later')), ('future', ('now',))):
+        for where in wheres:
+            for lenreq in (True, False):
+                r = run_failing_responder(kind, where, lenreq)
+                n_elems = 2 if where == 'later' else 0
+                ok = (len(r['errors_on_1']) == 1 and r['served_3'] and 1 not in r['registered'] and r['receiver_alive']
+                      and not r['escaped'] and r['other_frames_on_1'] == ['Payload'] * n_elems)
+                if not ok:
+                    out.append({'what': 'failing-publisher-not-contained', 'responder_case': [kind, where, lenreq],
+                                'detail': repr(r)[:400]})
+    return out
